@@ -20,14 +20,16 @@ def main():
     out = sys.stdout
     n = 0
     findings, kinds, finals, sample = [], {}, set(), None
+    tags = {}
+    stats = getattr(m, "stats", None)
 
     def flush():
-        nonlocal n, findings, kinds, finals, sample
-        out.write(json.dumps({"n": n, "findings": findings, "kinds": kinds,
+        nonlocal n, findings, kinds, finals, sample, tags
+        out.write(json.dumps({"n": n, "findings": findings, "kinds": kinds, "tags": tags,
                               "finals": sorted(finals), "sample": sample}, default=_hex) + "\n")
         out.flush()
         n = 0
-        findings, kinds, finals, sample = [], {}, set(), None
+        findings, kinds, finals, sample, tags = [], {}, set(), None, {}
 
     for line in sys.stdin:
         try:
@@ -40,6 +42,12 @@ def main():
             fs = fn(obj, ctx, opts)
         except Exception:  # noqa
             fs = [("machinery", "replayer-crashed", {"err": traceback.format_exc()[-1200:]})]
+        if stats is not None:
+            try:
+                for t in stats(obj, ctx):
+                    tags[t] = tags.get(t, 0) + 1
+            except Exception:  # noqa
+                tags["stats-failed"] = tags.get("stats-failed", 0) + 1
         h = obj.get("h") or []
         if h:
             a = h[-1].get("a", "?")
